@@ -36,10 +36,19 @@ pub struct TransferCase {
     /// (index into table::STATES) from its own address
     #[serde(default)]
     pub if_needed_hello: Option<u8>,
+    /// all pages of the list have identical contents (and, where sizes agree, are byte-identical neighbours)
+    #[serde(default)]
+    pub dup_pages: bool,
+    /// the bus fails at this call index (0-based over the whole operation) with this kind of error
+    /// (0 plain, 1 io Interrupted, 2 FrameError::Io(Interrupted), 3 io TimedOut)
+    #[serde(default)]
+    pub bus_error_at: Option<(usize, u8)>,
 }
 
 struct Recorder {
     own: u16,
+    bus_error_at: Option<(usize, u8)>,
+    errored: bool,
     hello_state: Option<u8>,
     hellos: usize,
     bad_ack: Option<(usize, u8)>,
@@ -55,6 +64,19 @@ impl SignBus for Recorder {
         let m = M::from_message(&message);
         if self.log.len() > 300_000 {
             return Err("harness call cap".into());
+        }
+        if let Some((at, kind)) = self.bus_error_at {
+            if at == self.log.len() && !self.errored {
+                self.errored = true;
+                self.log.push((m, None));
+                use std::io::{Error, ErrorKind};
+                return Err(match kind % 4 {
+                    1 => Box::new(Error::new(ErrorKind::Interrupted, "injected bus error")),
+                    2 => Box::new(flipdot_core::FrameError::from(Error::new(ErrorKind::Interrupted, "injected bus error"))),
+                    3 => Box::new(Error::new(ErrorKind::TimedOut, "injected bus error")),
+                    _ => "injected bus error".into(),
+                });
+            }
         }
         let after_count = matches!(self.log.last(), Some((M::Count(_), _)));
         let reply = match &m {
@@ -112,7 +134,10 @@ fn items_of(c: &TransferCase) -> Vec<Vec<u8>> {
         Some(sizes) => sizes
             .iter()
             .enumerate()
-            .map(|(p, &chunks)| (0..(chunks.max(1) as usize) * 16).map(|i| h64(&(c.seed, p as u64, i as u64)) as u8).collect())
+            .map(|(p, &chunks)| {
+                let p = if c.dup_pages { 0 } else { p as u64 };
+                (0..(chunks.max(1) as usize) * 16).map(|i| h64(&(c.seed, p, i as u64)) as u8).collect()
+            })
             .collect(),
     }
 }
@@ -139,7 +164,7 @@ fn run_op(sign: &Sign, c: &TransferCase, items: &[Vec<u8>]) -> Result<Result<(),
 
 pub fn check_transfer(c: &TransferCase, st: &mut Stats) -> Result<(), String> {
     let (sign_type, _, _, _, _) = TYPES[c.sign_type as usize % 11];
-    let rec = Rc::new(RefCell::new(Recorder { own: c.addr, hello_state: c.if_needed_hello, hellos: 0, bad_ack: c.bad_ack, transfer_requests: 0, verdicts: c.verdicts.clone(), attempt: 0, log: vec![], last_transfer_op: 0 }));
+    let rec = Rc::new(RefCell::new(Recorder { own: c.addr, bus_error_at: c.bus_error_at, errored: false, hello_state: c.if_needed_hello, hellos: 0, bad_ack: c.bad_ack, transfer_requests: 0, verdicts: c.verdicts.clone(), attempt: 0, log: vec![], last_transfer_op: 0 }));
     let sign = Sign::new(rec.clone(), Address(c.addr), sign_type);
     let items = items_of(c);
     let total_chunks: usize = items.iter().map(|i| (i.len() + 15) / 16).sum();
@@ -167,11 +192,11 @@ pub fn check_transfer_seq(c: &TransferSeq, st: &mut Stats) -> Result<(), String>
     let first = &c.ops[0];
     let (sign_type, _, _, _, _) = TYPES[first.sign_type as usize % 11];
     let verdicts: Vec<bool> = c.ops.iter().flat_map(|o| o.verdicts.iter().copied()).collect();
-    let rec = Rc::new(RefCell::new(Recorder { own: first.addr, hello_state: None, hellos: 0, bad_ack: None, transfer_requests: 0, verdicts, attempt: 0, log: vec![], last_transfer_op: 0 }));
+    let rec = Rc::new(RefCell::new(Recorder { own: first.addr, bus_error_at: None, errored: false, hello_state: None, hellos: 0, bad_ack: None, transfer_requests: 0, verdicts, attempt: 0, log: vec![], last_transfer_op: 0 }));
     let sign = Sign::new(rec.clone(), Address(first.addr), sign_type);
     for (k, op) in c.ops.iter().enumerate() {
         // every operation uses the first one's address and sign type (it is the same Sign object)
-        let op = TransferCase { addr: first.addr, sign_type: first.sign_type, bad_ack: None, ..op.clone() };
+        let op = TransferCase { addr: first.addr, sign_type: first.sign_type, bad_ack: None, bus_error_at: None, ..op.clone() };
         let items = items_of(&op);
         if items.iter().map(|i| (i.len() + 15) / 16).sum::<usize>() > 65535 {
             return Ok(());
@@ -196,6 +221,15 @@ pub fn check_transfer_seq(c: &TransferSeq, st: &mut Stats) -> Result<(), String>
 }
 
 fn judge_slice(c: &TransferCase, items: &[Vec<u8>], log: &[(M, Option<M>)], r: &Result<(), String>, st: &mut Stats) -> Result<(), String> {
+    // an injected bus failure ends the conversation at that message (whether it really ends there is C11's subject);
+    // what was sent up to and including the failing message must still be a prefix of the prescribed transfer
+    if let Some((at, _)) = c.bus_error_at {
+        if at + 1 == log.len() {
+            return judge_truncated(c, items, log, 0, st);
+        }
+        // if the controller went on after the failure, everything it sent is judged like any other transfer
+        // (a message repeated after the failure then shows up as a duplicated chunk or a wrong count)
+    }
     let (sign_type, _, _, sw, sh) = TYPES[c.sign_type as usize % 11];
     let op = if c.pages.is_none() { O_RECEIVE_CONFIG } else { O_RECEIVE_PIXELS };
 
@@ -310,6 +344,47 @@ fn judge_slice(c: &TransferCase, items: &[Vec<u8>], log: &[(M, Option<M>)], r: &
     Ok(())
 }
 
+/// transcript that ends with the message on which the bus failed
+fn judge_truncated(c: &TransferCase, items: &[Vec<u8>], log: &[(M, Option<M>)], sent_after: usize, st: &mut Stats) -> Result<(), String> {
+    let op = if c.pages.is_none() { O_RECEIVE_CONFIG } else { O_RECEIVE_PIXELS };
+    let mut expected: Vec<M> = vec![];
+    for item in items {
+        for (i, ch) in item.chunks(16).enumerate() {
+            expected.push(M::Data { off: (i * 16) as u16, data: ch.to_vec() });
+        }
+    }
+    // find the last receive request; everything data-like after it must be a prefix of [chunks.., count]
+    if let Some(start) = log.iter().rposition(|(m, _)| *m == M::Req(c.addr, op)) {
+        let mut k = 0usize;
+        for (m, _) in &log[start + 1..] {
+            match m {
+                M::Data { .. } => {
+                    if expected.get(k) != Some(m) {
+                        return Err(format!(
+                            "chunk {k} of the attempt that hit the bus failure is {} but the items prescribe {}",
+                            describe_chunk(m),
+                            expected.get(k).map(describe_chunk).unwrap_or_else(|| "nothing more".into())
+                        ));
+                    }
+                    k += 1;
+                }
+                M::Count(n) => {
+                    if *n as usize != k || k != expected.len() {
+                        return Err(format!("announced {n} chunks after sending {k} of {} prescribed", expected.len()));
+                    }
+                }
+                _ => {}
+            }
+        }
+    } else if let Some((m, _)) = log.iter().find(|(m, _)| matches!(m, M::Data { .. } | M::Count(_))) {
+        return Err(format!("{} was sent without a receive request", m.short()));
+    }
+    let _ = sent_after;
+    st.class("bus-failure-mid-operation");
+    st.nontrivial(h64(c));
+    Ok(())
+}
+
 fn describe_chunk(m: &M) -> String {
     match m {
         M::Data { off, data } => format!("SendData(offset {off}, {} bytes, first {:02X?})", data.len(), &data[..data.len().min(4)]),
@@ -340,8 +415,10 @@ fn case_strategy(max_pages: usize, big: bool) -> impl Strategy<Value = TransferC
         any::<u64>(),
         verdict_strategy(),
         prop_oneof![4 => Just(None), 1 => (0usize..3, 0u8..4).prop_map(Some)],
+        prop_oneof![4 => Just(false), 1 => Just(true)],
+        prop_oneof![5 => Just(None), 1 => (0usize..40, 0u8..4).prop_map(Some)],
     )
-        .prop_map(|(addr, sign_type, pages, seed, verdicts, bad_ack)| TransferCase { addr, sign_type, pages, seed, verdicts, bad_ack, if_needed_hello: None })
+        .prop_map(|(addr, sign_type, pages, seed, verdicts, bad_ack, dup_pages, bus_error_at)| TransferCase { addr, sign_type, pages, seed, verdicts, bad_ack, if_needed_hello: None, dup_pages, bus_error_at })
 }
 
 pub fn run(ctx: &Ctx) {
@@ -352,10 +429,10 @@ pub fn run(ctx: &Ctx) {
         let own_chunks = (crate::oracle::page::total_len(w, h) / 16) as u16;
         for (vi, v) in verdicts.iter().enumerate() {
             for addr in [0u16, 3, 0xFFFF] {
-                let c = TransferCase { addr, sign_type: t as u8, pages: None, seed: 0, verdicts: v.clone(), bad_ack: None, if_needed_hello: None };
+                let c = TransferCase { addr, sign_type: t as u8, pages: None, seed: 0, verdicts: v.clone(), bad_ack: None, if_needed_hello: None, dup_pages: false, bus_error_at: None };
                 check_transfer(&c, st).map_err(|m| (serde_json::to_value(&c).unwrap(), m))?;
                 for n in 0..=3usize {
-                    let c = TransferCase { addr, sign_type: t as u8, pages: Some(vec![own_chunks; n]), seed: (t * 10 + vi as u64) as u64, verdicts: v.clone(), bad_ack: None, if_needed_hello: None };
+                    let c = TransferCase { addr, sign_type: t as u8, pages: Some(vec![own_chunks; n]), seed: (t * 10 + vi as u64) as u64, verdicts: v.clone(), bad_ack: None, if_needed_hello: None, dup_pages: false, bus_error_at: None };
                     check_transfer(&c, st).map_err(|m| (serde_json::to_value(&c).unwrap(), m))?;
                     // the same transfer with the request of attempt 0 / 1 / 2 not acknowledged, in each of the four ways
                     let c = TransferCase { bad_ack: Some((vi % 3, (n + vi) as u8)), ..c };
@@ -366,10 +443,22 @@ pub fn run(ctx: &Ctx) {
         Ok(())
     });
     par_range(ctx, "configure-if-needed-hello-states", 11 * 13, |i, st| {
-        let c = TransferCase { addr: 0x0203, sign_type: (i % 11) as u8, pages: None, seed: 0, verdicts: vec![i % 3 != 0, true], bad_ack: None, if_needed_hello: Some((i / 11) as u8) };
+        let c = TransferCase { addr: 0x0203, sign_type: (i % 11) as u8, pages: None, seed: 0, verdicts: vec![i % 3 != 0, true], bad_ack: None, if_needed_hello: Some((i / 11) as u8), dup_pages: false, bus_error_at: None };
         check_transfer(&c, st).map_err(|m| (serde_json::to_value(&c).unwrap(), m))
     });
     ctx.part_done("configure-if-needed-hello-states", true, json!("configure_if_needed for 11 types x the 13 states the sign may report to the opening hello"));
+    par_range(ctx, "identical-pages-and-bus-failures", 64, |i, st| {
+        // the same page two / three times in a row (same id, same bytes)
+        let c = TransferCase { addr: 3, sign_type: (i % 11) as u8, pages: Some(vec![3; 2 + (i % 2) as usize]), seed: i, verdicts: vec![i % 3 != 0, true], bad_ack: None, if_needed_hello: None, dup_pages: true, bus_error_at: None };
+        check_transfer(&c, st).map_err(|m| (serde_json::to_value(&c).unwrap(), m))?;
+        // a bus failure of each kind at call index i of a two-page transfer
+        for kind in 0..4u8 {
+            let c = TransferCase { addr: 0x0405, sign_type: 5, pages: Some(vec![3, 2]), seed: 9, verdicts: vec![false, true], bad_ack: None, if_needed_hello: None, dup_pages: false, bus_error_at: Some((i as usize % 24, kind)) };
+            check_transfer(&c, st).map_err(|m| (serde_json::to_value(&c).unwrap(), m))?;
+        }
+        Ok(())
+    });
+    ctx.part_done("identical-pages-and-bus-failures", true, json!("page lists with byte-identical neighbours; a bus failure of 4 kinds (plain, io Interrupted, FrameError::Io(Interrupted), io TimedOut) at every call index of a two-page transfer with one retry"));
     ctx.part_done("all-types", true, json!("11 types x 4 verdict patterns x 3 addresses x (configure + 0..3 pages of the sign's size)"));
 
     // the 16-bit offset limit: one 65536-byte page, alone and with neighbours
@@ -380,7 +469,7 @@ pub fn run(ctx: &Ctx) {
             2 => vec![1, 4096, 2],
             _ => vec![4095, 4096],
         };
-        let c = TransferCase { addr: 0x0102, sign_type: 5, pages: Some(pages), seed: k, verdicts: vec![k % 2 == 0, true], bad_ack: None, if_needed_hello: None };
+        let c = TransferCase { addr: 0x0102, sign_type: 5, pages: Some(pages), seed: k, verdicts: vec![k % 2 == 0, true], bad_ack: None, if_needed_hello: None, dup_pages: false, bus_error_at: None };
         check_transfer(&c, st).map_err(|m| (serde_json::to_value(&c).unwrap(), m))
     });
     ctx.part_done("offset-limit", true, json!("pages of 4096 chunks (last offset 65520), alone and next to small pages"));
@@ -393,6 +482,9 @@ pub fn run(ctx: &Ctx) {
         || proptest::collection::vec(case_strategy(4, false), 2..=4).prop_map(|ops| TransferSeq { ops }),
         |c, st| check_transfer_seq(c, st),
     );
+    crate::engine::with_logging(|| {
+        run_generated(ctx, "generated+logging", ctx.tier.pick(20_000, 300_000), || case_strategy(4, false), |c, st| check_transfer(c, st));
+    });
     run_generated(ctx, "generated-large-pages", ctx.tier.pick(2_000, 40_000), || case_strategy(4, true), |c, st| check_transfer(c, st));
 }
 
